@@ -19,6 +19,11 @@ if "--frozen" in args:
     i = args.index("--frozen")
     FROZEN = json.load(open(args[i + 1]))
     del args[i : i + 2]
+RERUN = None
+if "--rerun-only" in args:  # checks whose rules changed since the freeze; the others keep their frozen (deterministic, same /repo, same rules) outcome
+    i = args.index("--rerun-only")
+    RERUN = set(args[i + 1].split(","))
+    del args[i : i + 2]
 SRC = args[0]
 only = set(args[1:])
 pids = [c["property_id"] for c in json.load(open("/verif/MANIFEST.json"))["checks"]]
@@ -58,8 +63,15 @@ for prop in sorted(os.listdir(SRC)):
             res = None
         else:
             try:
+                fz = FROZEN.get(f"{prop}/{m}")
+                todo = pids if (RERUN is None or fz is None) else [p for p in pids if p in RERUN]
+                if RERUN is not None and fz is not None and fz.get("reported_by") and os.environ.get("COLLECT_REUSE_REPORTED") == "1":
+                    todo = []  # already reported at the freeze: the frozen matrix is kept as it is
                 with cf.ThreadPoolExecutor(16) as ex:
-                    res = list(ex.map(run_check, pids))
+                    res = list(ex.map(run_check, todo))
+                if len(todo) < len(pids):
+                    res += [(p, 1 if p in fz.get("reported_by", {}) else (2 if p in fz.get("analysis_error_in", {}) else 0), fz.get("reported_by", {}).get(p, [])) for p in pids if p not in todo]
+                    res.sort()
             finally:
                 subprocess.run(["git", "-C", "/repo", "checkout", "--", "."], check=True)
         out = os.path.join("/verif/seeded", prop, PREFIX + m)
@@ -82,7 +94,7 @@ for prop in sorted(os.listdir(SRC)):
         }
         if res is not None:
             meta["checks_run_against_it"] = {
-                "how": "git -C /repo apply patch.diff; /venv/bin/python -m pvs check <ID> for every registered check; git -C /repo checkout -- .",
+                "how": "git -C /repo apply patch.diff; /venv/bin/python -m pvs check <ID> for every registered check; git -C /repo checkout -- ." + ("" if RERUN is None else " (checks whose rule set is unchanged since the freeze tag keep the outcome measured at the freeze; re-run: " + ",".join(sorted(RERUN)) + (" - and only for changes that no check reported at the freeze" if os.environ.get("COLLECT_REUSE_REPORTED") == "1" else "") + ")"),
                 "reported_by": {pid: rules for pid, rc, rules in res if rc == 1},
                 "analysis_error_in": [pid for pid, rc, _ in res if rc == 2],
                 "silent": [pid for pid, rc, _ in res if rc == 0],
